@@ -516,4 +516,187 @@ example :
     newTris (formEdgeSwap fan4 Cav.create 0 1 4).2 = [⟨0, 6, 2, 7⟩, ⟨6, 1, 2, 7⟩] := by
   decide +kernel
 
+
+/-! ## 2(d) / C13. rejected ⇒ no trace
+
+In the model `ref_cavity_form_*`, `ref_cavity_enlarge_*`, `ref_cavity_check_visible`, the acceptance tests and
+`ref_cavity_free` cannot touch the grid: they produce a cavity (private lists) and read the grid; only
+`ref_cavity_replace` returns a grid.  That the C has the same shape is what the tie checks (structural grid hash
+before `ref_cavity_create` / after `ref_cavity_free` on every path that does not reach `replace`).  What is proved
+here is the logic of the callers: the grid they hand back differs from the one they got only through a
+`ref_cavity_replace` of a cavity that is `VISIBLE` and passed the caller's acceptance test. -/
+
+/-- **replace_requires_visible**: `ref_cavity_replace` on a cavity in any state other than `VISIBLE` fails at its first
+    test and returns the grid (cells, node validity, free lists: the whole value) and the cavity untouched -/
+theorem replace_requires_visible (g : Grid α) (c : Cav) (h : c.state ≠ .visible) :
+    replace g c = (.failure, c, g) := by
+  unfold replace
+  rw [if_pos h]
+
+/-- an inconsistent face or seg list blocks `ref_cavity_replace` as well (the grid is returned untouched) -/
+theorem replace_inconsistent_no_trace (g : Grid α) (c : Cav) (h : ¬ VerifyPassed c) :
+    (replace g c).2.2 = g := by
+  unfold replace
+  split
+  · rfl
+  · rcases verifyFaceManifold_cases c with hf | hf | hf <;> rw [hf] <;> simp only []
+    · -- the face verification returned the cavity unchanged: then it was `inconsistent` already
+      by_cases hs : c.state = .inconsistent
+      · rcases verifySegManifold_cases c with hw | hw | hw <;> rw [hw] <;> simp only []
+        · rw [if_pos (by rw [hs]; decide)]
+        · rw [if_pos (by decide)]
+      · exact absurd ⟨hf, hs⟩ h
+    · have : verifySegManifold { c with state := .inconsistent } = (.ok, { c with state := .inconsistent }) := by
+        unfold verifySegManifold; simp
+      rw [this]; simp only []
+      rw [if_pos (by decide)]
+
+section callers
+variable [Refine.Scalar α]
+
+/-- **cavity_reject_no_trace (collapse path)**: the grid `ref_collapse_to_remove_node1`'s cavity fall-back hands back is
+    the one it got, unless a cavity in state `VISIBLE` that passed `ref_cavity_ratio` and
+    `min_add > collapse_quality_absolute` was given to `ref_cavity_replace`. -/
+theorem collapseCavityPath_no_trace (g g' : Grid α) (nd : Refine.Model.Collapse.Nodes α) (a : Adapt α) (n0 n1 : Int)
+    (s : Refine.Model.Cavity.St) (rep : Bool) (h : collapseCavityPath g nd a n0 n1 = (s, rep, g')) :
+    g' = g ∨ ∃ c minDel minAdd, c.state = .visible ∧ cavRatio nd a.postMin a.postMax c = true ∧
+      cavChange g nd minVolume c = (.ok, minDel, minAdd) ∧ (a.collapseQualityAbsolute <. minAdd) = true ∧
+      g' = (replace g c).2.2 ∧ rep = ((replace g c).1 == .ok) := by
+  unfold collapseCavityPath at h
+  split at h
+  · split at h
+    · simp only [Prod.mk.injEq] at h; exact Or.inl h.2.2.symm
+    · split at h
+      · next c hc =>
+        split at h
+        · simp only [Prod.mk.injEq] at h; exact Or.inl h.2.2.symm
+        · next hvis =>
+          split at h
+          · next minDel minAdd hch =>
+            split at h
+            · next hacc =>
+              simp only [Prod.mk.injEq] at h
+              simp only [Bool.and_eq_true] at hacc
+              exact Or.inr ⟨c, minDel, minAdd, by simpa using hvis, hacc.1, hch, hacc.2, h.2.2.symm, h.2.1.symm⟩
+            · simp only [Prod.mk.injEq] at h; exact Or.inl h.2.2.symm
+          · simp only [Prod.mk.injEq] at h; exact Or.inl h.2.2.symm
+      · simp only [Prod.mk.injEq] at h; exact Or.inl h.2.2.symm
+      · simp only [Prod.mk.injEq] at h; exact Or.inl h.2.2.symm
+  · simp only [Prod.mk.injEq] at h; exact Or.inl h.2.2.symm
+
+/-- **cavity_reject_no_trace (split path)**: same for the `try_cavity` branch of `ref_split_pass` -/
+theorem splitCavityPath_no_trace (g g' : Grid α) (nd : Refine.Model.Collapse.Nodes α) (a : Adapt α)
+    (conf : Cav → Seg → Bool) (hasEdge : Bool) (n0 n1 newNode : Int) (s : Refine.Model.Cavity.St) (rep : Bool)
+    (h : splitCavityPath g nd a conf hasEdge n0 n1 newNode = (s, rep, g')) :
+    g' = g ∨ ∃ c minDel minAdd, c.state = .visible ∧ (cavRatio nd a.postMin a.postMax c || hasEdge) = true ∧
+      cavChange g nd minVolume c = (.ok, minDel, minAdd) ∧ (a.splitQualityAbsolute <. minAdd) = true ∧
+      g' = (replace g c).2.2 ∧ rep = ((replace g c).1 == .ok) := by
+  unfold splitCavityPath at h
+  split at h
+  · simp only at h
+    split at h
+    · simp only [Prod.mk.injEq] at h; exact Or.inl h.2.2.symm
+    · next c hc =>
+      split at h
+      · simp only [Prod.mk.injEq] at h; exact Or.inl h.2.2.symm
+      · next hvis =>
+        split at h
+        · next minDel minAdd hch =>
+          split at h
+          · next hacc =>
+            simp only [Prod.mk.injEq] at h
+            simp only [Bool.and_eq_true] at hacc
+            exact Or.inr ⟨c, minDel, minAdd, by simpa using hvis, hacc.1, hch, hacc.2, h.2.2.symm, h.2.1.symm⟩
+          · simp only [Prod.mk.injEq] at h; exact Or.inl h.2.2.symm
+        · simp only [Prod.mk.injEq] at h; exact Or.inl h.2.2.symm
+  · simp only [Prod.mk.injEq] at h; exact Or.inl h.2.2.symm
+
+/-! ## 4. acceptance tests (logic only; the numbers are `Float`-tied) -/
+
+/-- **swapTetTrial_accepts**: a candidate of `ref_cavity_swap_tet_pass` enters the `best` competition only if its
+    cavity formed ok, is not `INCONSISTENT`, `ref_cavity_check_visible` made it `VISIBLE`, `ref_cavity_ratio` allowed
+    it and `ref_cavity_change` reported `min_add − min_del > 0.0001`; the value it competes with is `min_add`. -/
+theorem swapTetTrial_accepts (g : Grid α) (nd : Refine.Model.Collapse.Nodes α) (a : Adapt α) (n0 n1 n2 : Int)
+    (s : Refine.Model.Cavity.St) (q : α) (h : swapTetTrial g nd a n0 n1 n2 = (s, some q)) :
+    s = .ok ∧ ∃ c0 c minDel, formEdgeSwap g Cav.create n0 n1 n2 = (.ok, c0) ∧ c0.state ≠ .inconsistent ∧
+      checkVisible g c0 = (.ok, c) ∧ c.state = .visible ∧ cavRatio nd a.postMin a.postMax c = true ∧
+      cavChange g nd minVolume c = (.ok, minDel, q) ∧ (Scalar.ofDec 1 (-4) <. (q -. minDel)) = true := by
+  unfold swapTetTrial at h
+  split at h
+  · next c0 hf =>
+    split at h
+    · simp at h
+    · next hinc =>
+      split at h
+      · next c hv =>
+        split at h
+        · simp at h
+        · next hvis =>
+          split at h
+          · simp at h
+          · next hr =>
+            split at h
+            · next minDel minAdd hch =>
+              split at h
+              · next hgt =>
+                simp only [Prod.mk.injEq, Option.some.injEq] at h
+                obtain ⟨rfl, rfl⟩ := h
+                exact ⟨rfl, c0, c, minDel, hf, hinc, hv, by simpa using hvis, by simpa using hr, hch, hgt⟩
+              · simp at h
+            · simp at h
+      · simp at h
+  · simp at h
+
+/-- the grid after the body of `ref_cavity_swap_tet_pass` for one tet is the input grid unless a best candidate was
+    chosen, and then it is `ref_cavity_replace` of the re-formed, re-checked cavity of that candidate -/
+theorem swapTetCell_no_trace (g g' : Grid α) (nd : Refine.Model.Collapse.Nodes α) (a : Adapt α)
+    (gate : Int → Int → Bool) (t : Tet) (s : Refine.Model.Cavity.St) (h : swapTetCell g nd a gate t = (s, g')) :
+    g' = g ∨ ∃ e0 e1 e2 c0 c, swapTetBest g nd a gate t = (.ok, some (e0, e1, e2)) ∧
+      formEdgeSwap g Cav.create e0 e1 e2 = (.ok, c0) ∧ checkVisible g c0 = (.ok, c) ∧ g' = (replace g c).2.2 := by
+  unfold swapTetCell at h
+  split at h
+  · simp only [Prod.mk.injEq] at h; exact Or.inl h.2.symm
+  · next e0 e1 e2 hb =>
+    split at h
+    · next c0 hf =>
+      split at h
+      · next c hv =>
+        simp only [Prod.mk.injEq] at h
+        exact Or.inr ⟨e0, e1, e2, c0, c, hb, hf, hv, h.2.symm⟩
+      · simp only [Prod.mk.injEq] at h; exact Or.inl h.2.symm
+    · simp only [Prod.mk.injEq] at h; exact Or.inl h.2.symm
+  · simp only [Prod.mk.injEq] at h; exact Or.inl h.2.symm
+
+end callers
+
+section ratioreal
+open Refine.ScalarReal
+
+/-- **cavRatio_band** (over ℝ): `ref_cavity_ratio` allows the cavity iff every edge from the cavity node to a node of
+    a live, unattached face has its metric length inside `[post_min_ratio, post_max_ratio]` -/
+theorem cavRatio_band (nd : Refine.Model.Collapse.Nodes ℝ) (lo hi : ℝ) (c : Cav) :
+    cavRatio nd lo hi c = true ↔
+      ∀ f ∈ c.validFaces, f.has c.node = false → ∀ v ∈ Face.nodes f,
+        lo ≤ Refine.Model.Collapse.nodeRatio nd c.node.toNat v.toNat ∧
+        Refine.Model.Collapse.nodeRatio nd c.node.toNat v.toNat ≤ hi := by
+  unfold cavRatio
+  simp only [List.all_eq_true, Bool.or_eq_true, Bool.not_eq_true', Bool.or_eq_false_iff]
+  constructor
+  · intro h f hf hatt v hv
+    rcases h f hf with h1 | h1
+    · rw [h1] at hatt; cases hatt
+    · have := h1 v hv
+      rw [lt_false_iff, lt_false_iff] at this
+      exact this
+  · intro h f hf
+    by_cases hatt : f.has c.node = true
+    · exact Or.inl hatt
+    · right
+      intro v hv
+      have := h f hf (by simpa using hatt) v hv
+      rw [lt_false_iff, lt_false_iff]
+      exact this
+
+end ratioreal
+
 end Refine.Props.C01Cavity2
